@@ -126,7 +126,7 @@ def with_defaults(I, ttype, value):
 
 def run(ctx):
     import suds
-    n_ifaces = ctx.pick(300, 1500)
+    n_ifaces = ctx.pick(300, 6000)
     reqs, metas = [], []
     for ident, I0 in K.family(ctx, n_ifaces, "C03", encoded_every=0):
         K.shape_stats(ctx, I0)
